@@ -5,6 +5,7 @@
 use crate::core::Rng;
 use crate::model::fmt_spec::{Kind, DATE_SYMBOLS, TIME_SYMBOLS};
 
+#[allow(dead_code)]
 pub const SEP: char = '|';
 
 /// (symbol, width) tokens: at least one symbol from `must` (if non-empty), the rest from the type's table.
@@ -52,6 +53,7 @@ pub fn company(rng: &mut Rng, kind: Kind, must: &[char], zone: bool) -> Vec<(cha
     toks
 }
 
+#[allow(dead_code)]
 pub fn join(toks: &[(char, usize)]) -> String {
     let mut p = String::new();
     for (k, (c, w)) in toks.iter().enumerate() {
